@@ -344,7 +344,25 @@ def compose_or_none(*a):
 def worker(sub, idx, nchunks, n):
     rng = sub.rng
     for _ in range(n):
-        check_case(sub, gen_case(rng))
+        inp = gen_case(rng)
+        check_case(sub, inp)
+        if rng.random() < 0.1 and not inp.get('edge') and inp['a'] is not None and inp['zone1'] == inp['zone2']:
+            # the same zone / easting / northing numbers read in the OTHER hemisphere (another pair of points altogether), then the
+            # first reading again: each answer is that of the hemisphere of its own call
+            h = (inp['hemisphere'] or 'south').lower()
+            other = dict(inp, hemisphere='north' if h == 'south' else 'south')
+            try:
+                gs_ = [C.grid2geo(z, e, n_, other['hemisphere'], ell_of(inp))
+                       for z, e, n_ in ((inp['zone1'], inp['east1'], inp['north1']), (inp['zone2'], inp['east2'], inp['north2']))]
+                # inside the generator's own domain: latitudes within the band and off the equator, longitudes in range and within the zone's reach
+                ok_other = all(0.01 <= abs(g_[0]) <= (83.9 if other['hemisphere'] == 'north' else 79.9) and -179.9 <= g_[1] <= 179.9
+                               and abs(g_[1] - cm_of(inp['zone1'])) <= 3.6 for g_ in gs_)
+            except Exception:  # noqa
+                ok_other = False
+            if ok_other:
+                sub.stats.add('same-numbers-other-hemisphere')
+                check_case(sub, other)
+                check_case(sub, inp)
 
 
 def run(p):
